@@ -838,6 +838,28 @@ def run_hregrid(case):
         if not np.any(f2[k][cand] == o2[k, i, j]):
           return out.fail(what='NearestRegridder value is not the value of a nearest source node', target=[i, j],
                           got=o2[k, i, j], nearest_values=f2[k][cand][:4], min_distance=float(dist.min()))
+  # history in one process: a twin of the source grid that differs only in its longitude offset (0.6 cell) is
+  # regridded to, from and onto itself, then the original pair again -- anything remembered per grid *shape* shows here
+  import copy
+  tw = copy.deepcopy(case['src'])
+  tw['offset'] = float(case['src']['offset'] + 0.6 * 2 * np.pi / case['src']['nlon'])
+  s2 = _hbuild(tw)
+  s2lon = np.asarray(s2.longitudes, dtype=np.float64)
+  for name_, ga, gb, alon, blon in (('src -> shifted twin', s, s2, slon, s2lon), ('shifted twin -> itself', s2, s2, s2lon, s2lon),
+                                     ('src -> itself (again)', s, s, slon, slon), ('shifted twin -> src', s2, s, s2lon, slon)):
+    o3 = np.asarray(hi.NearestRegridder(ga, gb)(f2), dtype=np.float64)
+    for i in range(len(blon)):
+      for j in range(len(slat)):
+        dl = alon[:, None] - blon[i]
+        dist = 2 * np.arcsin(np.sqrt(np.clip(np.sin((slat[None, :] - slat[j]) / 2) ** 2
+                                             + np.cos(slat[None, :]) * np.cos(slat[j]) * np.sin(dl / 2) ** 2, 0, 1)))
+        cand = dist <= dist.min() + 1e-9
+        for k in range(nf):
+          if not np.any(f2[k][cand] == o3[k, i, j]):
+            return out.fail(what='NearestRegridder (' + name_ + ', same shape and spacing, other longitude offset, same '
+                            'process) does not return the value of a nearest source node', target=[i, j],
+                            got=o3[k, i, j], nearest_values=f2[k][cand][:4])
+  out.units += 4 * int(np.prod(s.nodal_shape))
   # bilinear: exact for a field affine in latitude at target latitudes inside the source latitude range
   oa = res['BilinearRegridder'][nf + 1]
   inside = (tlat >= slat[0]) & (tlat <= slat[-1])
